@@ -11,6 +11,7 @@ import (
 	"errors"
 	"fmt"
 	"math"
+	"slices"
 
 	"github.com/decred/dcrd/dcrec/secp256k1/v4"
 	"github.com/fxamacker/cbor/v2"
@@ -198,6 +199,8 @@ type TokenV3Proof struct {
 
 func NewTokenV3(proofs Proofs, mint string, unit Unit, includeDLEQ bool) (TokenV3, error) {
 	if !includeDLEQ {
+		// remove the DLEQ proofs in a copy so that the proofs of the caller keep them
+		proofs = slices.Clone(proofs)
 		for i := 0; i < len(proofs); i++ {
 			proofs[i].DLEQ = nil
 		}
